@@ -184,32 +184,39 @@ Fixpoint trim_rows (n : nat) (t : tbl) (acc : list root) : res (tbl * list root)
   end.
 Definition trim_sectors (t : tbl) (n : N) : res (tbl * list root) := trim_rows (N.to_nat n) t [].
 
+(* incrementNumericStat(metricContractSectors, -n): a zero delta returns at once; a value that
+   would go negative is a panic ("negative stat value") *)
+Definition dec_stat (cur n : N) : res N :=
+  if n =? 0 then Ok cur else if cur <? n then Panic else Ok (cur - n).
+
 (** ** Store.ReviseContract, the loop over sectorChanges (contracts.go:373-425).
    [roots] is the caller's copy of the list before the changes (the updater's oldRoots);
    the Go variable [sectors] is [nlen roots] throughout. *)
-Fixpoint store_replay (stored : list root) (t : tbl) (roots : list root) (acts : list action) : M tbl :=
+Fixpoint store_replay (stored : list root) (t : tbl) (roots : list root) (ns : N)
+         (acts : list action) : M (tbl * N) :=
   match acts with
-  | [] => ret t
+  | [] => ret (t, ns)
   | a :: rest =>
       mdo _ <- stmt;
       match a with
       | Append r =>
           mdo t' <- lift (append_sector stored t r (nlen roots));
-          store_replay stored t' (roots ++ [r]) rest
+          store_replay stored t' (roots ++ [r]) (ns + 1) rest           (* appendSector: metric +1 *)
       | Trim n =>
           if nlen roots <? n then lift (Err EOther)
           else
             mdo tr <- lift (trim_sectors t n);
             let '(t', trimmed) := tr in
+            mdo ns' <- lift (dec_stat ns n);                             (* trimSectors: metric -n *)
             if list_eqb N.eqb trimmed (skipn (length roots - N.to_nat n) roots)
-            then store_replay stored t' (trim_roots roots n) rest
+            then store_replay stored t' (trim_roots roots n) ns' rest
             else lift (Err EOther)                 (* "inconsistent sector trim" *)
       | Update r i =>
           mdo ur <- lift (update_sector stored t r i);
           let '(t', old) := ur in
           if nlen roots <=? i then lift Panic      (* roots[change.A]: index out of range *)
           else if negb (nth_root roots i =? old) then lift (Err EOther)
-          else store_replay stored t' (set_root roots i r) rest
+          else store_replay stored t' (set_root roots i r) ns rest
       | Swap a0 b0 =>
           let a := if b0 <? a0 then b0 else a0 in
           let b := if b0 <? a0 then a0 else b0 in
@@ -223,7 +230,7 @@ Fixpoint store_replay (stored : list root) (t : tbl) (roots : list root) (acts :
                        | None => true
                        | Some (x, y) => ((x =? oa) || (x =? ob)) && ((y =? oa) || (y =? ob))
                        end in
-            if okc then store_replay stored t' (swap_roots roots a b) rest
+            if okc then store_replay stored t' (swap_roots roots a b) ns rest
             else lift (Err EOther)                 (* "inconsistent sector swap" *)
       end
   end.
@@ -243,12 +250,14 @@ Fixpoint v2_upserts (stored : list root) (t : tbl) (i : N) (old new : list root)
              v2_upserts stored (tupsert i r t) (i + 1) (tl old) new'
   end.
 
-Definition v2_diff (stored : list root) (t : tbl) (old new : list root) : M tbl :=
+Definition v2_diff (stored : list root) (t : tbl) (old new : list root) (ns : N) : M (tbl * N) :=
   mdo _ <- stmt;                                         (* prepare *)
   mdo t' <- v2_upserts stored t 0 old new;
   mdo t'' <- (if nlen new <? nlen old then mdo _ <- stmt; ret (tcut (nlen new) t') else ret t');
-  mdo _ <- stmt;                                         (* contract sector metric *)
-  ret t''.
+  mdo _ <- stmt;                                         (* contract sector metric: delta = len(new) - len(old) *)
+  mdo ns' <- lift (if nlen new <? nlen old then dec_stat ns (nlen old - nlen new)
+                   else Ok (ns + (nlen new - nlen old)));
+  ret (t'', ns').
 
 (** * Contracts and the database *)
 
@@ -263,12 +272,15 @@ Record db := mkdb {
   stored : list root;             (* stored_sectors (rows are never deleted) *)
   located : list root;            (* stored sectors that have a volume_sectors slot *)
   t1 : list (cid * ct);           (* contracts + contract_sector_roots *)
-  t2 : list (cid * ct) }.         (* contracts_v2 + contract_v2_sector_roots *)
+  t2 : list (cid * ct);           (* contracts_v2 + contract_v2_sector_roots *)
+  nsec : N }.                     (* host_stats: metricContractSectors (latest value) *)
 
 Definition set_t1 (d : db) (t : list (cid * ct)) : db :=
-  {| stored := stored d; located := located d; t1 := t; t2 := t2 d |}.
+  {| stored := stored d; located := located d; t1 := t; t2 := t2 d; nsec := nsec d |}.
 Definition set_t2 (d : db) (t : list (cid * ct)) : db :=
-  {| stored := stored d; located := located d; t1 := t1 d; t2 := t |}.
+  {| stored := stored d; located := located d; t1 := t1 d; t2 := t; nsec := nsec d |}.
+Definition set_nsec (d : db) (n : N) : db :=
+  {| stored := stored d; located := located d; t1 := t1 d; t2 := t2 d; nsec := n |}.
 
 Definition with_rev (c : ct) (r f : N) (m : hash) : ct :=
   {| rev := r; fsize := f; cap := cap c; mroot := m; wstart := wstart c; expi := expi c;
@@ -325,8 +337,9 @@ Definition store_revise1 (d : db) (id : cid) (nrev nfsize : N) (nmroot : hash)
                | None => lift (Err EOther)
                | Some c =>
                    mdo _ <- stmt;                                  (* updateContractUsage *)
-                   mdo t' <- store_replay (stored d) (rows c) old acts;
-                   ret (set_t1 d (aset id (with_rows (with_rev c nrev nfsize nmroot) t') (t1 d)))
+                   mdo tn <- store_replay (stored d) (rows c) old (nsec d) acts;
+                   ret (set_nsec (set_t1 d (aset id (with_rows (with_rev c nrev nfsize nmroot) (fst tn)) (t1 d)))
+                                 (snd tn))
                end).
 
 (* the three link / move statements shared by RenewContract and RenewV2Contract *)
@@ -367,8 +380,8 @@ Definition store_revise2 (d : db) (id : cid) (c : rv2) (old new : list root) : M
                | None => lift (Err EOther)
                | Some e =>
                    mdo _ <- stmt;                                  (* usage *)
-                   mdo t' <- v2_diff (stored d) (rows e) old new;
-                   ret (set_t2 d (aset id (with_rows (with_rv2 e c) t') (t2 d)))
+                   mdo tn <- v2_diff (stored d) (rows e) old new (nsec d);
+                   ret (set_nsec (set_t2 d (aset id (with_rows (with_rv2 e c) (fst tn)) (t2 d))) (snd tn))
                end).
 
 (* Store.RenewV2Contract (contracts.go:247-273) *)
@@ -421,7 +434,7 @@ Record state := mkstate {
   height : N }.                         (* chain tip height *)
 
 Definition init : state :=
-  {| dbs := {| stored := []; located := []; t1 := []; t2 := [] |};
+  {| dbs := {| stored := []; located := []; t1 := []; t2 := []; nsec := 0 |};
      cache := []; upds := []; locks := []; height := 0 |}.
 
 Definition set_dbs (s : state) (d : db) : state :=
@@ -467,6 +480,7 @@ Inductive op :=
 | Look1 (id : cid)                               (* Store.SectorRoots, Manager.SectorRoots, Store.Contract *)
 | Look2 (id : cid)                               (* Store.V2SectorRoots, Manager.SectorRoots, Store.V2Contract *)
 | Located (r : root)                             (* Store.SectorLocation succeeds *)
+| CountSectors                                   (* Store.Metrics(now).Storage.ContractSectors *)
 | Restart                                        (* reopen the database, NewManager *)
   (* the store methods called directly, past the manager and its cache (used to tie the
      replay / diff code on stale [old] lists; never part of a disciplined history) *)
@@ -478,7 +492,8 @@ Inductive obs :=
 | OAct (r : res unit) (cur : list root)          (* and ContractUpdater.SectorRoots() *)
 | OLook (found : bool) (dbl cachel : list root) (orev ofsize : N) (omroot : hash) (oto ofrom : option cid)
 | OLock2 (r : res (N * bool * bool * list root)) (* revision number, Renewed, Revisable, Roots *)
-| OBool (b : bool).
+| OBool (b : bool)
+| ONum (n : N).
 
 Definition outcome {A} (s : state) (r : res (A * option nat)) (f : A -> state) : state * obs :=
   match r with
@@ -541,11 +556,11 @@ Definition step (s : state) (o : op) : state * obs :=
       let d := dbs s in
       (set_dbs s {| stored := if mem r (stored d) then stored d else r :: stored d;
                     located := if mem r (located d) then located d else r :: located d;
-                    t1 := t1 d; t2 := t2 d |}, ORes (Ok tt))
+                    t1 := t1 d; t2 := t2 d; nsec := nsec d |}, ORes (Ok tt))
   | Prune =>
       let d := dbs s in
       (set_dbs s {| stored := stored d; located := filter (referenced d) (located d);
-                    t1 := t1 d; t2 := t2 d |}, ORes (Ok tt))
+                    t1 := t1 d; t2 := t2 d; nsec := nsec d |}, ORes (Ok tt))
   | SetHeight h =>
       ({| dbs := dbs s; cache := cache s; upds := upds s; locks := locks s; height := h |}, ORes (Ok tt))
   | Form1 id frev ffsize fmroot ws =>
@@ -610,6 +625,7 @@ Definition step (s : state) (o : op) : state * obs :=
   | Look1 id => (s, look (t1 (dbs s)) s id)
   | Look2 id => (s, look (t2 (dbs s)) s id)
   | Located r => (s, OBool (mem r (located (dbs s))))
+  | CountSectors => (s, ONum (nsec (dbs s)))
   | Restart =>
       ({| dbs := dbs s; cache := load (dbs s); upds := []; locks := []; height := height s |}, ORes (Ok tt))
   | RawRevise1 id nrev nfsize nmroot old acts fault =>
@@ -634,6 +650,7 @@ Definition obs_eqb (a b : obs) : bool :=
       && option_eqb N.eqb t t' && option_eqb N.eqb fr fr'
   | OLock2 x, OLock2 y => res_eqb lock2_eqb x y
   | OBool x, OBool y => Bool.eqb x y
+  | ONum x, ONum y => x =? y
   | _, _ => false
   end.
 
